@@ -415,12 +415,23 @@ func (ie *initEnv) astOf() string {
 	if tc == nil {
 		return ""
 	}
-	fd := ie.it.declOf("tokens.AST")
+	// the tree as a user of the parser gets it: the parser's own AST method where it has one
+	// (a wrapper, a cache), otherwise the method promoted from the embedded token list
+	var fd *ast.FuncDecl
+	var recv Value = tc.v
+	if n, ok := ie.p.t.(*types.Named); ok {
+		if own := ie.it.declOf(n.Obj().Name() + ".AST"); own != nil {
+			fd, recv = own, ie.p
+		}
+	}
+	if fd == nil {
+		fd = ie.it.declOf("tokens.AST")
+	}
 	if fd == nil {
 		return ""
 	}
 	ie.it.steps = 0
-	res := ie.it.callDecl(fd, tc.v)
+	res := ie.it.callDecl(fd, recv)
 	if len(res) != 1 {
 		return ""
 	}
@@ -557,12 +568,13 @@ func rtReuseSemantics(a *aggregator, v *rtView, rule, construct string) {
 	longBack := run{"abcdef", [][]step{{{2, 4, 0}, {4, 5, 2}, {5, 6, 4}}, {{1, 7, 0}, {1, 1, 0}}}, true}
 	longFail := run{"abcdef", [][]step{{{2, 4, 0}, {5, 5, 2}}}, false}
 	short := run{"ab", [][]step{{{1, 4, 0}, {1, 1, 0}}}, true}
+	sameCount := run{"xyz", [][]step{{{3, 4, 0}, {3, 1, 0}}}, true} // as many tokens as short, other spans
 	shortFail := run{"ab", [][]step{{{1, 4, 0}}}, false}
 	empty := run{"", [][]step{{{0, 1, 0}}}, true}
 	emptyFail := run{"", nil, false}
 	seqs := [][]run{
 		{long, short}, {long, shortFail}, {longBack, short}, {longFail, short}, {longFail, shortFail},
-		{short, long}, {long, empty}, {long, emptyFail}, {empty, long}, {longBack, longFail}, {long, longBack},
+		{short, long}, {short, sameCount}, {long, empty}, {long, emptyFail}, {empty, long}, {longBack, longFail}, {long, longBack},
 	}
 	do := func(ie *initEnv, r run, first bool) (string, string) {
 		if !first {
